@@ -78,7 +78,14 @@ class Stage:
         """The driver of the model as verified against the pinned facts (built by tools/setup.sh, or here)."""
         pinned = BUILD + '/driver.pinned'
         src = V + '/pinned/Facts.lean'
-        if not os.path.exists(pinned) or os.path.getmtime(pinned) < os.path.getmtime(src):
+        newest = os.path.getmtime(src)
+        for root, _, files in os.walk(LEAN):
+            if '.lake' in root:
+                continue
+            for f in files:
+                if f.endswith('.lean') and not root.endswith('/Gen'):
+                    newest = max(newest, os.path.getmtime(os.path.join(root, f)))
+        if not os.path.exists(pinned) or os.path.getmtime(pinned) < newest:   # the model or the pinned facts moved
             gen = LEAN + '/CorsVerif/Gen/Facts.lean'
             cur = open(gen).read()
             try:
